@@ -49,6 +49,7 @@ def gen(rng):
                     links.append([a, b, lat, lat_ns])
     link_set = {(l[0], l[1]) for l in links}
     violate = rng.random() < 0.06
+    daemons = rng.random() < 0.3       # in these scripts half of the emitted events are daemon events
     wchoice = rng.random()
     window = None if wchoice < 0.4 else (lat if (wchoice < 0.7 or lat_ns < 100) else lat / rng.choice([2, 4, 10]))
     base = [0, 1, lat_ns, lat_ns // 2, 3 * lat_ns + 1, es.ns_of(0.35), 10 * lat_ns]
@@ -66,7 +67,9 @@ def gen(rng):
             dt = lat_ns + rng.choice([0, 0, 1, lat_ns, 5])
             if violate and rng.random() < 0.3:
                 dt = max(0, lat_ns - 1)
-        return dict(dt=dt, target=tgt, type=rng.randrange(t), daemon=False, label=-1, hooks=[])
+        # (round-9 seed C05-16) some emitted events are daemon events: a partitioned run with an end time delivers
+        # them up to the horizon like the sequential run, also once no primary event is left anywhere
+        return dict(dt=dt, target=tgt, type=rng.randrange(t), daemon=daemons and rng.random() < 0.5, label=-1, hooks=[])
 
     prog = []
     for ent in range(n_ent):
